@@ -24,7 +24,7 @@ def param_uses(f, idx=0):
     return out
 
 
-@rule("C13", "C13.a.case-folding", floor=4)
+@rule("C13", "C13.a.case-folding", floor=2)
 def c13a(F, R):
     """mnemonics, directives, CSR names and immediates are lower-cased before their tables / radix logic"""
     for ty in (INST, P + "directive::DirectiveToken", P + "imm::CsrImm", P + "imm::Imm"):
@@ -267,7 +267,7 @@ def c13i(F, R):
             R.ok("as_type", detail="the whole token goes to TryFrom<Token>", where=loc(c))
 
 
-@rule("C13", "C13.j.comments-count-as-line-ends", floor=3)
+@rule("C13", "C13.j.comments-count-as-line-ends", floor=2)
 def c13j(F, R):
     """wherever the decoder asks whether the next token is the end of the line, a comment token gets the same answer as a newline token (a comment is followed by its newline): otherwise adding a comment after a line changes how the statement - an omitted operand, a list of values that continues on the next line - is read"""
     p = [q for q in F.fns if q.endswith("for riscv_analysis::parser::node::ParserNode>::try_from") and "Peekable" in q]
